@@ -128,6 +128,71 @@ theorem parseParam_three (name ty dflt : List Char) (hn : ' ' ∉ name) (ht : ' 
     rw [splitSpaces_succ 1 _ _ hn, splitSpaces_succ 0 _ _ ht, splitSpaces]
   simp [parseParam, e]
 
+/-! ## automatic instance names -/
+
+omit [CharFold] in
+theorem autoName_inj {a b : Nat} (h : autoName a = autoName b) : a = b := by
+  have h' := List.append_cancel_left h
+  have := congrArg (fun l => Nat.ofDigitChars 10 l 0) h'
+  simpa [Nat.ofDigitChars_toDigits (by decide : 1 < 10) (by decide : 10 ≤ 10)] using this
+
+omit [CharFold] in
+theorem autoName_plain (n : Nat) : passThrough (autoName n) = false := rfl
+
+omit [CharFold] in
+theorem autoName_ne_nil (n : Nat) : (autoName n).isEmpty = false := rfl
+
+omit [CharFold] in
+theorem assignAuto_length : ∀ (c : Nat) (names : List (List Char)),
+    (assignAuto c names).length = names.length
+  | _, [] => rfl
+  | c, nm :: rest => by
+    simp only [assignAuto]; split <;> simp [assignAuto_length]
+
+omit [CharFold] in
+/-- Named instances keep their name; an unnamed one gets `InstanceAuto<k>` with `k` = (number of
+unnamed ones before it) + 1 — so no effective name is empty. -/
+theorem assignAuto_getElem : ∀ (c : Nat) (names : List (List Char)) (i : Nat) (h : i < names.length),
+    (assignAuto c names)[i]'(by rw [assignAuto_length]; exact h) =
+      if names[i].isEmpty then autoName (c + ((names.take i).filter (·.isEmpty)).length + 1) else names[i]
+  | c, nm :: rest, 0, _ => by
+    simp only [assignAuto]; split <;> simp [*]
+  | c, nm :: rest, i + 1, h => by
+    have h' : i < rest.length := by simpa using h
+    simp only [assignAuto]
+    split
+    · rename_i he
+      simp only [List.getElem_cons_succ, List.take_succ_cons, List.filter_cons, he, if_true,
+        List.length_cons]
+      rw [assignAuto_getElem (c + 1) rest i h']
+      split <;> simp [Nat.add_assoc, Nat.add_comm 1]
+    · rename_i he
+      simp only [List.getElem_cons_succ, List.take_succ_cons, List.filter_cons, he,
+        Bool.false_eq_true, if_false]
+      exact assignAuto_getElem c rest i h'
+
+omit [CharFold] in
+/-- Two different unnamed instances of one `collapse_all` call get different names. -/
+theorem assignAuto_distinct (names : List (List Char)) (i j : Nat) (hi : i < names.length)
+    (hj : j < names.length) (hij : i < j) (ei : names[i].isEmpty = true) (ej : names[j].isEmpty = true) :
+    (assignAuto 0 names)[i]'(by rw [assignAuto_length]; exact hi) ≠
+      (assignAuto 0 names)[j]'(by rw [assignAuto_length]; exact hj) := by
+  rw [assignAuto_getElem 0 names i hi, assignAuto_getElem 0 names j hj]
+  simp only [ei, ej, if_true]
+  intro h
+  have := autoName_inj h
+  -- the count of unnamed instances before j includes i itself
+  have hlt : ((names.take i).filter (·.isEmpty)).length < ((names.take j).filter (·.isEmpty)).length := by
+    have hsplit : names.take j = names.take i ++ (names.drop i).take (j - i) := by
+      rw [← List.take_add]; congr 1; omega
+    rw [hsplit, List.filter_append, List.length_append]
+    obtain ⟨k, hk⟩ : ∃ k, j - i = k + 1 := ⟨j - i - 1, by omega⟩
+    have : (names.drop i).take (j - i) = names[i] :: ((names.drop (i + 1)).take k) := by
+      rw [List.drop_eq_getElem_cons hi, hk, List.take_succ_cons]
+    rw [this, List.filter_cons]
+    simp [ei]
+  omega
+
 /-! ## supplied / unsupplied variables -/
 
 omit [CharFold] in
